@@ -7,7 +7,7 @@ from ..polyid import Poly, Translator
 
 PID = "C07"
 LEVEL = "other"
-CRATES = ["rlib_rational"]
+CRATES = ["rlib_rational", "rlib_gcd"]
 RELEASE = True
 ARMED = True
 ENGINES = ["E3", "E7", "E4c"]
@@ -96,7 +96,7 @@ def check(col, prog, tier, profile, fixture=None):
     col.rule("N1", "every Rational construction is normalised, has b = ONE, or negates only the numerator; operators return Self::new", floor=8)
     col.rule("N2", "assigning / Copy operator forms resolve to the by-reference impl of the same family", floor=12)
     col.rule("N3", "PartialEq/Eq/Hash derived on the same fields; cmp = sign((self - rhs).a); partial_cmp = Some(cmp)", floor=5)
-    col.rule("N4", "norm divides both fields by the same gcd and negates both iff b < 0", floor=3)
+    col.rule("N4", "norm divides both fields by the same gcd and negates both iff b < 0; gcd is Euclid's loop on the absolute values", floor=3)
     col.rule("N5", "cross-multiplication identities of + - * / as polynomial normal forms", floor=4)
 
     # ---------------- N1 aggregates
@@ -180,6 +180,15 @@ def check(col, prog, tier, profile, fixture=None):
                 col.ok("N5", b.loc(nc[0].bb), key, "num/den = (%s) / (%s) satisfies the cross-multiplication identity" % (num, den))
             else:
                 col.violation("N5", key, b.loc(nc[0].bb), "%s hands Self::new the pair (%s, %s), which is not the exact %s of the operands: residual %s" % (b.path, num, den, {"Add": "sum", "Sub": "difference", "Mul": "product", "Div": "quotient"}[tr], lhs - rhs))
+
+    # ---------------- N4 (continued): the gcd the normaliser divides by — the property's files include rlib/gcd
+    gc = prog.crates.get("rlib_gcd") if not fixture else None
+    if gc is not None:
+        from . import c11
+
+        gb = util.need_body(gc, "gcd")
+        free_g = [f_ for f_ in gc.bodies if not f_.is_closure and f_.kind == "Fn" and f_.container is None and f_.vis != "pub" and not util.self_recursive(f_)]
+        c11.rule_gcd(col, gb, util.analyser(free_g, features=("comb", "fncall", "opassign")), rid="N4")
 
     # ---------------- N2 families
     for imp in _impls(crate, adt["key"]):
